@@ -806,7 +806,7 @@ def ctx_rules(ctx: Ctx) -> None:
         else:
             ctx.R.ok("CTX-1", norm(c))
     ne, nu = g.node_of(_stmt(mod, el[0])), g.node_of(_stmt(mod, un[0]))
-    if g.dominates(ne, nu) and _stmt(mod, el[0]) in loop.body and _stmt(mod, un[0]) in loop.body:
+    if g.all_paths_pass(g.node_of(loop), {nu.idx}, {ne.idx}):
         ctx.R.ok("CTX-1", "elaborate_context precedes unwrap_context in every iteration")
     else:
         ctx.R.fail("CTX-1", mod, un[0], "unwrap_context can run before elaborate_context in an iteration: the original manager would not be elaborated first")
@@ -1336,6 +1336,7 @@ def ori_rules(ctx: Ctx) -> None:
 
 
 C05 = [cont1_2, cont3, cont4, cont5, def1, contw]
+# err1 is appended below, after its definition
 C10 = [eng1, eng2, eng34, yf1, cont3]
 C11 = [ctx_rules, ctx5]
 C13 = [opt1, opt2, opt3, opt4, opt56, opt7, ctx_rules]
@@ -1364,6 +1365,38 @@ def eng5(ctx: Ctx) -> None:
         else:
             ctx.R.fail("ENG-5", mod, y, "the frame is yielded on a path on which elaborate_frame has not run for it yet: a consumer that stops after this frame (extract_outermost) "
                        "gets it without the hide / hide_line / customisations the hooks apply", construct="yield before elaborate_frame")
+
+
+def err1(ctx: Ctx) -> None:
+    """ERR-1 error paths of the engine never overwrite what may already carry recorded errors: inside an except handler of the
+    engine module nothing is stored into a Context / Frame / Stack with setattr(), and none of their error-carrying fields
+    (inner_stack, children, contexts, error, frames) is assigned.  (A roll-back of a half-filled Context discards the inner
+    Stack whose .error holds an earlier, already contained fault: that fault is then retrievable from nowhere.)"""
+    mod = _engine_mod(ctx)
+    carrying = {"inner_stack", "children", "contexts", "error", "frames"}
+    n = 0
+    for q, fn in mod.defs.items():
+        if not isinstance(fn, (ast.FunctionDef, ast.AsyncFunctionDef)):
+            continue
+        for h in ast.walk(fn):
+            if not isinstance(h, ast.ExceptHandler) or mod.enclosing_def(h) is not fn:
+                continue
+            n += 1
+            bad = None
+            for x in ast.walk(h):
+                if isinstance(x, ast.Call) and isinstance(x.func, ast.Name) and x.func.id == "setattr":
+                    bad = (x, f"setattr({norm(x.args[0]) if x.args else ''}, ...)")
+                elif isinstance(x, (ast.Assign, ast.AugAssign)):
+                    for tg in (x.targets if isinstance(x, ast.Assign) else [x.target]):
+                        if isinstance(tg, ast.Attribute) and tg.attr in carrying:
+                            bad = (x, norm(tg))
+            if bad:
+                ctx.R.fail("ERR-1", mod, bad[0], f"{q}: an except handler stores `{bad[1]}`: on an error path the engine overwrites a field that may already hold contained faults "
+                           "(an inner Stack with its .error, child contexts), so an earlier recorded exception becomes unretrievable", construct=f"{q}: handler overwrites {bad[1]}")
+            else:
+                ctx.R.ok("ERR-1", f"{q}: handler at line {h.lineno} only records / degrades")
+    if n < 6:
+        raise AnalysisError(f"ERR-1: {n} except handlers found in the engine module (>= 6 confirmed by hand)")
 
 
 def sig1(ctx: Ctx) -> None:
@@ -1402,4 +1435,5 @@ def sig1(ctx: Ctx) -> None:
 
 
 C10 = C10 + [sig1, eng5]
+C05 = C05 + [err1]
 C11 = C11 + [sig1]
